@@ -75,7 +75,7 @@ def steps_of_hist(hist):
         if h["op"] == "tick":
             out.append({"tick": 1, "op": {"op": "tick"}})
         elif h["op"] == "close":
-            out.append({"close": h["c"], "op": {"op": "close"}})
+            out.append({"close": h["c"], "how": h.get("how", "clean"), "op": {"op": "close"}})
         elif h["op"] == "restart":
             out.append({"restart": 1, "op": {"op": "restart"}})
         else:
